@@ -31,6 +31,10 @@ def families(tier):
         fam('rotation2', [('a1', 'c1', 1), ('a2', 'c1', 1)], ['r'], ['c1'], ['c1'], True, 2, 2),
         # growth: the record of the second counter does not fit into the mapping
         fam('growth2', [('a1', 'c1', 1), ('a2', 'c2', 1)], [], ['c1', 'c2'], ['c1'], True, 1, 0),
+        # two DIFFERENT cold counters registered concurrently while the file is opened (lock-free list insertion)
+        fam('firstopen2c', [('a1', 'c1', 1), ('a2', 'c2', 1)], ['r'], ['c1', 'c2'], [], False, 1, 0),
+        # two cold counters: one lookup waits for file.mu while the other grows the file
+        fam('growth2cold', [('a1', 'c2', 1), ('a2', 'c3', 1)], [], ['c1', 'c2', 'c3'], ['c1'], True, 1, 0),
         # saturation: the persisted value is one below its limit and two increments arrive
         fam('saturate2', [('a1', 'c1', 1), ('a2', 'c1', 1)], [], ['c1'], ['c1'], True, 1, 2, warm_cell=14),
     ]
@@ -102,6 +106,59 @@ def schedule_of(states):
     return sched
 
 
+PC_LABEL = {
+    'RG_nl': ('(*file).register', 'Pointer.Load'), 'RG_hl': ('(*file).register', 'Pointer.Load'),
+    'RG_ncas': ('(*file).register', 'Pointer.CompareAndSwap'), 'RG_hcas': ('(*file).register', 'Pointer.CompareAndSwap'),
+    'RG_nst': ('(*file).register', 'Pointer.Store'),
+    'A_load': ('load<(*Counter).Add', 'Uint64.Load'), 'A_nilload': ('load<(*Counter).Add', 'Uint64.Load'),
+    'A_cas1': ('update<(*Counter).Add', 'Uint64.CompareAndSwap'), 'A_cas2': ('update<(*Counter).Add', 'Uint64.CompareAndSwap'),
+    'A_cas3': ('update<(*Counter).Add', 'Uint64.CompareAndSwap'), 'A_nilx': ('update<(*Counter).Add', 'Uint64.CompareAndSwap'),
+    'RR_up': ('update<(*Counter).releaseReader', 'Uint64.CompareAndSwap'), 'RR_dec': ('update<(*Counter).releaseReader', 'Uint64.CompareAndSwap'),
+    'RR_load': ('load<(*Counter).releaseReader', 'Uint64.Load'),
+    'RL_setHP': ('update<(*Counter).releaseLock', 'Uint64.CompareAndSwap'), 'RL_clrEx': ('update<(*Counter).releaseLock', 'Uint64.CompareAndSwap'),
+    'RL_unlock': ('update<(*Counter).releaseLock', 'Uint64.CompareAndSwap'), 'RL_load': ('load<(*Counter).releaseLock', 'Uint64.Load'),
+    'D_load': ('(*Counter).add', 'Uint64.Load'), 'D_cas': ('(*Counter).add', 'Uint64.CompareAndSwap'),
+    'LK_cur': ('(*file).lookup', 'Pointer.Load'), 'NC_lock': ('(*file).newCounter1', 'Mutex.Lock'),
+    'NC_cur': ('(*file).newCounter1', 'Pointer.Load'), 'NC_store': ('(*file).newCounter1', 'Pointer.Store'),
+    'IV_head': ('(*file).invalidateCounters', 'Pointer.Load'), 'IV_next1': ('(*file).invalidateCounters', 'Pointer.Load'),
+    'IV_next2': ('(*file).invalidateCounters', 'Pointer.Load'),
+    'IVa_load': ('load<(*Counter).invalidate', 'Uint64.Load'), 'IVa_cas': ('update<(*Counter).invalidate', 'Uint64.CompareAndSwap'),
+    'IVr_load': ('load<(*Counter).refresh', 'Uint64.Load'), 'IVr_cas': ('update<(*Counter).refresh', 'Uint64.CompareAndSwap'),
+    'RO_lock': ('(*file).rotate1', 'Mutex.Lock'), 'RO_prev': ('(*file).rotate1', 'Pointer.Load'),
+    'RO_store': ('(*file).rotate1', 'Pointer.Store'), 'RO_defcur': ('(*file).rotate1.func', 'Pointer.Load'),
+}
+
+
+def label_script(states):
+    """Sequentialized, label-aligned form of a witness: each task, in the order in which the tasks
+    made their last step, runs alone until it stands where it stands in the window ("task>>fn|kind|k")."""
+    settled = [st for st in states if not pending(st)]
+    if len(settled) < 2:
+        return None
+    last_move = {}
+    pend = {}     # task -> list of pcs it was suspended at (after each of its visible steps)
+    for i, (a, b) in enumerate(zip(settled, settled[1:])):
+        for t in b['stk']:
+            if b['stk'][t] != a['stk'][t]:
+                last_move[t] = i
+                pc = b['stk'][t][0]['pc'] if b['stk'][t] else 'done'
+                pend.setdefault(t, []).append(pc)
+    final = settled[-1]
+    script = []
+    for t in sorted(last_move, key=lambda x: last_move[x]):
+        fr = final['stk'][t]
+        if not fr or fr[0]['pc'] == 'Fault':
+            script.append('%s>>done|x|1' % t)
+            continue
+        pc = fr[0]['pc']
+        if pc not in PC_LABEL:
+            return None
+        lab = PC_LABEL[pc]
+        k = sum(1 for q in pend.get(t, []) if PC_LABEL.get(q) == lab)
+        script.append('%s>>%s|%s|%d' % (t, lab[0], lab[1], max(1, k)))
+    return script
+
+
 def run_cfg(f, rid, schedule, finish, seed, trace=True):
     return dict(id=rid, family=f['name'], adders=[dict(name=a[0], ctr=a[1], n=a[2]) for a in f['adders']], rotators=f['rot'],
                 counters=f['counters'], warm=f['warm'], initOpen=f['init_open'], clock2=(f['clock'] == 2), capacity=f['cap'],
@@ -155,7 +212,7 @@ def run(ctx):
     WNAMES = ['W_HolderOnClosedMapping', 'W_HalfRegistered', 'W_LockWithReaders', 'W_HavePtrNil', 'W_InvalidateDuringHold', 'W_RefreshLocks',
               'W_TwoGrowths', 'W_RefreshSeesReaders', 'W_RefreshSeesLocked', 'W_AddSeesReadersNoPtr', 'W_LastReaderUpgrade', 'W_UnlockRaced',
               'W_ClearExtraRaced', 'W_SetHPNoExtra', 'W_StoreDuringRead', 'W_RotStoreDuringRead', 'W_HeadCasRaced', 'W_NilReader',
-              'W_InvalidateCasRaced', 'W_LookupBeforeOpen', 'W_CloseWhileLocked']
+              'W_InvalidateCasRaced', 'W_LookupBeforeOpen', 'W_CloseWhileLocked', 'W_LookupStaleCurrent', 'W_LookupStaleClosed', 'W_ListRace']
     oneshot = ['OneShot(i, W) == IF W /\\ TLCGet(i) = 0 THEN TLCSet(i, 1) /\\ FALSE ELSE TRUE',
                'ASSUME \\A i \\in 1..40 : TLCSet(i, 0)']
     onames = {}
@@ -213,6 +270,28 @@ def run(ctx):
             for k in range(2):
                 cut = rng.randrange(max(1, len(sched) // 2), len(sched) + 1)
                 add_run(f, sched[:cut], 'random', inv + ':prefix')
+            # label-aligned, sequentialized replay of the window (robust against added/removed operations)
+            scr = label_script([s for (_a, s) in tr])
+            if scr:
+                for fin in ('stick', 'rr', 'seq'):
+                    add_run(f, scr, fin, inv + ':aligned')
+            # drift tolerance: a change to the code that adds or removes a shared operation shifts the
+            # step counts of the witness; replay it also with the last two segments one step longer/shorter
+            segs = []
+            for t in sched:
+                if segs and segs[-1][0] == t:
+                    segs[-1][1] += 1
+                else:
+                    segs.append([t, 1])
+            if len(segs) >= 2:
+                for d1 in (-1, 0, 1):
+                    for d2 in (-1, 0, 1):
+                        if d1 == 0 and d2 == 0:
+                            continue
+                        js = [list(x) for x in segs]
+                        js[-1][1] = max(0, js[-1][1] + d2)
+                        js[-2][1] = max(0, js[-2][1] + d1)
+                        add_run(f, [t for (t, n) in js for _ in range(n)], 'stick', inv + ':jitter')
     for f in fams:
         # (4) schedules chosen by the harness itself (random, and sequential orders)
         for k in range(ctx.pick(60, 600)):
@@ -349,22 +428,36 @@ def run(ctx):
         ctx.sample({'family': runs[0]['family'], 'why': runfam[1][1], 'schedule': results[1].get('schedule', [])[:60], 'status': results[1]['status']})
 
 
+def _reach(x):
+    reach = set()
+    cur = x['head']
+    guard = 0
+    while cur not in ('nil', 'end', 'other') and guard < 10:
+        reach.add(cur)
+        cur = x['nxt'].get(cur, 'end')
+        guard += 1
+    return reach
+
+
 def signature_context(res, obs_k, o, f):
     """narrow context of an invariant failure on the real state: which hazard
-    the run went through (used to tell known findings apart)."""
-    # F2 precondition: at some step a counter had next # nil but was unreachable from head while
-    # another task was inside invalidateCounters
-    half = False
+    the run went through (used to tell known findings apart).
+
+    F2's window: while some task is inside invalidateCounters a counter has
+    next # nil (somebody started registering it) but is not yet reachable from
+    the list head -- and it IS published later.  A counter that never becomes
+    reachable was dropped from the list, which is a different defect."""
+    half = set()
     for x in obs_k:
+        if 'invalidateCounters' not in x.get('label', ''):
+            continue
+        reach = _reach(x)
         for c, nx in x['nxt'].items():
-            if nx != 'nil':
-                reach = set()
-                cur = x['head']
-                guard = 0
-                while cur not in ('nil', 'end', 'other') and guard < 10:
-                    reach.add(cur)
-                    cur = x['nxt'].get(cur, 'end')
-                    guard += 1
-                if c not in reach and 'invalidateCounters' in x.get('label', ''):
-                    half = True
-    return 'half-registered-during-invalidate' if half else 'plain'
+            if nx != 'nil' and c not in reach:
+                half.add(c)
+    if not half:
+        return 'plain'
+    last = obs_k[-1]
+    if any(c not in _reach(last) for c in half):
+        return 'dropped-from-registration-list'
+    return 'half-registered-during-invalidate'
